@@ -140,7 +140,9 @@ def chain_case(p, m, S, cid, extra=None):
         c.update(extra or {})
         return c
     try:
-        ch = p.build_decay_chains(m, stable_particles=list(S))
+        # the stable set in the three forms the signature names: list, tuple, set
+        form = (list, tuple, set)[(len(m) + len(S)) % 3]
+        ch = p.build_decay_chains(m, stable_particles=form(S))
         res = {"notfound": False, "entries": proj_chain(ch[m]) if list(ch.keys()) == [m] else [{"bf": "?key"}]}
     except DecayNotFound:
         res = {"notfound": True, "entries": []}
